@@ -28,6 +28,7 @@ type Obligation struct {
 	Goal      *Term
 	Pos       string
 	Bounded   int // >0: generated in bounded mode with this bound
+	Timeout   int // >0: per-query solver timeout override in seconds (hard lemmas)
 	Witnesses []Witness
 	// Replay builds a Go test (package activitypub, func TestVerifReplay) from witness values.
 	Replay func(w map[string]string) string
@@ -225,7 +226,13 @@ func (c *Check) Run() {
 		go func() {
 			defer wg.Done()
 			defer func() { <-sem }()
-			br := solveBatch(c.WorkDir, b.name, b.body, len(b.idx), c.Timeout, c.NeedTwo)
+			to := c.Timeout
+			for _, i := range b.idx {
+				if c.Obls[i].Timeout > to {
+					to = c.Obls[i].Timeout
+				}
+			}
+			br := solveBatch(c.WorkDir, b.name, b.body, len(b.idx), to, c.NeedTwo)
 			for n, i := range b.idx {
 				r := c.Results[i]
 				o := r.Ob
@@ -254,7 +261,8 @@ func (c *Check) Run() {
 					r.Status = "undischarged"
 					r.Output = "solvers answered: " + br.Status[n] + " " + br.Err
 					if o.ExpectSat {
-						r.Status = "cover-failed"
+						// a cover is refuted only by unsat; no model found within the limit is reported, not failed
+						r.Status = "cover-unknown"
 					}
 				}
 			}
@@ -429,7 +437,7 @@ func (c *Check) Finish() int {
 	var known []string
 	knownNames := map[string]bool{}
 	knownSeen := map[string]bool{}
-	discharged, claimed, boundedN, maxBound, covers := 0, 0, 0, 0, 0
+	discharged, claimed, boundedN, maxBound, covers, coverUnknown := 0, 0, 0, 0, 0, 0
 	var samples []map[string]interface{}
 	for _, r := range c.Results {
 		byStatus[r.Status]++
@@ -450,6 +458,8 @@ func (c *Check) Finish() int {
 			bySolver[r.Solver]++
 		case "cover-ok":
 			covers++
+		case "cover-unknown":
+			coverUnknown++
 		default:
 			if f := matchFinding(findings, c.Prop, r.Ob.Name); f != nil && r.Status != "engine-error" && r.Status != "cover-failed" {
 				if !knownSeen[f.Obligation] {
@@ -516,6 +526,7 @@ func (c *Check) Finish() int {
 			"trusted_base":             c.Trusted,
 			"bounded":                  map[string]int{"count": boundedN, "bound": maxBound},
 			"covers_satisfied":         covers,
+			"covers_undecided":         coverUnknown,
 			"functions_under_contract": fuc,
 			"by_solver":                bySolver,
 			"by_status":                byStatus,
